@@ -27,19 +27,19 @@ P, N = R.P, R.N
 def plan(tier, seed):
     q = tier == 'quick'
     units = []
-    for i in range(24 if q else 640):
+    for i in range(72 if q else 640):
         units.append({'kind': 'raw', 'weight': 2})
-    for i in range(8 if q else 240):
+    for i in range(24 if q else 240):
         units.append({'kind': 'octets', 'weight': 2})
-    for i in range(16 if q else 400):
+    for i in range(48 if q else 400):
         units.append({'kind': 'containers', 'weight': 3})
-    for i in range(12 if q else 256):
+    for i in range(36 if q else 256):
         units.append({'kind': 'tls', 'weight': 2})
-    for i in range(8 if q else 200):
+    for i in range(24 if q else 200):
         units.append({'kind': 'private', 'weight': 3})
-    for i in range(8 if q else 120):
+    for i in range(24 if q else 120):
         units.append({'kind': 'compress', 'n': 125 if q else 500, 'weight': 3})
-    for i in range(8 if q else 128):
+    for i in range(16 if q else 128):
         units.append({'kind': 'sm9', 'weight': 3})
     return units
 
